@@ -47,6 +47,13 @@ def step (w : World) (line : String) : World × String :=
     let (w1, r) := call w p (kv "id").toNat! false false
     (w1, s!"res={showRes r} opened={w1.opened - w.opened} live={if live w1 p then 1 else 0}")
   | some "disconnect" => (disconnect w p, "live=0")
+  | some "parfail" =>
+    -- the first request's NewStream fails while others wait behind it on the same sender: the sender is invalid from then
+    -- on, the waiters fail without opening anything, and the request that follows gets a sender and a stream of its own
+    let w0 := disconnect { w with behs := w.behs.filter (fun e => e.1 != p), opens := w.opens.filter (fun e => e.1 != p) } p
+    let waiters := ((kv "waiters").splitOn ",").map fun t => s!"{t}:error"
+    let (w1, r) := call w0 p (kv "then").toNat! true false
+    (w1, s!"first=open waiters=[{",".intercalate waiters}] then={showRes r} opened={w1.opened - w.opened} live={if live w1 p then 1 else 0} maxlive=1")
   | some "par" =>
     let calls : List (Nat × Nat) := ((kv "reqs").splitOn ",").filterMap fun t =>
       match t.splitOn ":" with
@@ -82,6 +89,13 @@ def verdict (_ : Unit) (line : String) : Unit × String :=
     let res := C09.kvOf iw "res"
     if res.toNat?.isSome && res != kv "id" then ((), s!"FAIL request {kv "id"} was handed the reply to request {res}")
     else if (C09.kvOf iw "live").toNat! > 1 then ((), "FAIL more than one stream open to the peer") else ((), "ok")
+  | some "parfail" =>
+    let bad := (splitList (C09.kvOf iw "waiters")).any fun (t : String) => match t.splitOn ":" with
+      | [a, b] => b.toNat?.isSome && a != b
+      | _ => false
+    let th := C09.kvOf iw "then"
+    if bad || (th.toNat?.isSome && th != kv "then") then ((), "FAIL a request was handed another request's reply")
+    else if (C09.kvOf iw "maxlive").toNat! > 1 then ((), "FAIL two streams to one peer were open at the same time") else ((), "ok")
   | some "par" =>
     let rs := splitList (C09.kvOf iw "res")
     let bad := rs.any fun (t : String) => match t.splitOn ":" with
